@@ -6,6 +6,7 @@ import (
 	"sort"
 	"strconv"
 	"strings"
+	"verif/internal/rules"
 
 	"golang.org/x/tools/go/ssa"
 
@@ -656,4 +657,19 @@ func c18Writers(cx *Ctx, r *ev.Report) {
 	}
 	sort.Strings(det)
 	r.Check(len(det) == 0, "C18/layout/no-writers", "NO-WRITERS(tables): the machine-code tables are written only by package initialisation", "internal/tinycpm/tinycpm.go", "shape", det...)
+	// machines are independent: outside package initialisation nothing in the
+	// package stores to (or through) a package-level variable, so the byte a
+	// machine hands to its writer cannot be another machine's
+	var fns []*ssa.Function
+	for fn := range allFunctions(cx.P) {
+		if fn.Pkg == sp && fn.Name() != "init" && !strings.HasPrefix(fn.Name(), "init#") {
+			fns = append(fns, fn)
+		}
+	}
+	eff := rules.ComputeEffects(cx.P, fns)
+	det = append([]string{}, eff.GlobalStores...)
+	sort.Strings(det)
+	r.Check(len(det) == 0, "C18/isolation/no-shared-state", "R-EFFECTS(tinycpm): no function of the package other than package initialisation stores to or through a package-level variable (two machines share no mutable state: each console receives its own bytes in its own program order)", "internal/tinycpm/tinycpm.go", "shape", det...)
+	r.Analysed["tinycpm_functions"] = len(fns)
+	r.Analysed["tinycpm_stores"] = eff.Stores
 }
